@@ -446,11 +446,15 @@ def run_batch(v, drv, name, sched_text, seed, lock, kf_listed):
         if os.path.exists(tr):
             save_replay(PROP, name + ".ndjson", src=tr)
         fails = [x for x in err.splitlines() if "ORACLE-FAIL" in x][:4]
-        if rc == 2 and os.path.exists(tr):
-            # what does the specification say about this history?
+        first = False
+        with lock:
+            if not v.notes.get("_detail_done"):
+                v.notes["_detail_done"] = first = True
+        if rc == 2 and os.path.exists(tr) and first:
+            # what does the specification say about this history? (once per run: it costs time)
             try:
                 hdr, recs = prep_trace(tr, tr + ".p")
-                rv = validate_trace("IoTrace.tla", "IoTrace.cfg", tr + ".p", header=hdr, timeout=300, metaname="c14trf_" + name)
+                rv = validate_trace("IoTrace.tla", "IoTrace.cfg", tr + ".p", header=hdr, timeout=90, metaname="c14trf_" + name)
                 lines = open(rv.trace_with_header).read().splitlines()
                 k = rv.maxl or 1
                 fails.append("trace validation: " + ("accepted by Io.tla" if rv.accepted else
@@ -531,7 +535,7 @@ def traces(v, tier, seed):
     drv = build_driver("drv_io")
     rng = random.Random(seed * 7919 + 13)
     kf_listed = set(f.get("key") for f in known_findings(PROP)["findings"])
-    nsim, ntake, nrand = (400, 70, 50) if tier == "quick" else (3000, 600, 700)
+    nsim, ntake, nrand = (600, 110, 90) if tier == "quick" else (3000, 600, 700)
     if os.environ.get("C14_COUNTS"):      # debugging aid
         nsim, ntake, nrand = [int(x) for x in os.environ["C14_COUNTS"].split(",")]
     tl, rsim = tlc_schedules(seed, nsim)
@@ -589,6 +593,13 @@ def traces(v, tier, seed):
 
 def run(tier, seed):
     v = Verdict(PROP, tier, seed)
+    try:
+        return run1(v, tier, seed)
+    finally:
+        v.notes.pop("_detail_done", None)
+
+
+def run1(v, tier, seed):
     v.assumptions = [
         "queues and groups are abstract in Io.tla: serial queue = FIFO executor, suspension stops it, group notify fires at zero (C02, C06, C07)",
         "kernel object = byte sequence with short reads/writes, EAGAIN, EOF, hangup; TLC bounds: see models",
